@@ -40,7 +40,7 @@ static bool refMatch(const char *host, const char *v)
     return hl > vl && eqNoCase(host + hl - vl, v);          // any subdomain: host ends with ".domain"
 }
 
-static void domainAcl(const unsigned maxValues, const unsigned VLEN, const unsigned HLEN, const char vLetter = 'b', const char hLetter = 'B')
+static void domainAcl(const unsigned maxValues, const unsigned VLEN, const unsigned HLEN, const char vLetter = 'b', const char hLetter = 'B', const bool firstLookup = false)
 {
     vf_quiet();
     cfgCount = (unsigned)vf_concretize(vf_range(1, maxValues, "nvalues"));
@@ -56,6 +56,13 @@ static void domainAcl(const unsigned maxValues, const unsigned VLEN, const unsig
     vf_assert(!acl->empty(), "parsed values are kept");
     bool expect = false;
     for (unsigned i = 0; i < cfgCount; ++i) expect = expect || refMatch(host, vals[i]);
+    if (firstLookup) {
+        // an earlier lookup of another host reorganises the splay tree; its answer is checked as well
+        char *host0 = symbolicName(2, false, "h0len", "h0byte", hLetter);
+        bool expect0 = false;
+        for (unsigned i = 0; i < cfgCount; ++i) expect0 = expect0 || refMatch(host0, vals[i]);
+        vf_assert(acl->match(host0) == expect0, "ACL matches iff some configured value matches the host");
+    }
     const bool got = acl->match(host);
     vf_observe("expect", expect);
     vf_observe("got", got);
@@ -72,4 +79,6 @@ extern "C" void c41_hyphen(void) { domainAcl(2, 3, 3, '-', '-'); }
 #else
 extern "C" void c41_hyphen(void) { domainAcl(2, 2, 3, '-', '-'); }
 #endif
+// the same with a lookup of another (1..2 byte) host before: the splay tree has been rotated by that lookup
+extern "C" void c41_history(void) { domainAcl(2, 2, 3, '-', '-', true); }
 extern "C" void c41_three_values(void) { domainAcl(3, 2, 3); }   // not in a tier: did not finish within 8 minutes together with the entry above
